@@ -351,23 +351,40 @@ func incCase(in map[string]any) map[string]any {
 					ch <- doRun(ctx, ex, e, set)
 				}(set, d)
 			}
+			// two-phase watchdog: after timeout_ms a Run counts as slow, after 5 x timeout_ms (at least 6 s more) as hung;
+			// the long second phase keeps a loaded machine from being mistaken for a deadlock
 			deadline := time.After(time.Duration(to) * time.Millisecond)
 			runs := make([]any, len(sets))
 			hang := false
+			slow := false
 			for i, ch := range chans {
 				select {
 				case r := <-ch:
 					r["hang"] = false
 					runs[i] = r
 				case <-deadline:
-					hang = true
-					runs[i] = map[string]any{"hang": true}
-					// keep draining the others with an already expired deadline
+					slow = true
+					extra := 4 * time.Duration(to) * time.Millisecond
+					if extra < 6*time.Second {
+						extra = 6 * time.Second
+					}
+					if hang {
+						extra = 0
+					}
+					select {
+					case r := <-ch:
+						r["hang"] = false
+						runs[i] = r
+					case <-time.After(extra):
+						hang = true
+						runs[i] = map[string]any{"hang": true}
+					}
 					dl := make(chan time.Time)
 					close(dl)
 					deadline = dl
 				}
 			}
+			o["slow"] = slow
 			if hang {
 				// wake everything up so the process can go on; the executor is not used any more
 				cancel()
@@ -387,7 +404,7 @@ func incCase(in map[string]any) map[string]any {
 			cancel()
 			// quiescence: goroutines spawned by a cancelled Run may still be running
 			leaked := 0
-			for k := 0; k < 300; k++ {
+			for k := 0; k < 1600; k++ {
 				leaked = runtime.NumGoroutine() - baseG
 				if leaked <= 0 {
 					break
